@@ -1,11 +1,13 @@
 #!/bin/bash
 # Development tool: re-run the quick check of the home property against every stored seeded change and rewrite the
-# home entry of its verdict.json.  tools/recheck_seeded.sh [letters, default "A B C D E F G H"]
+# home entry of its verdict.json.  tools/recheck_seeded.sh [letters, default "A B C D E F G H I J"]
 # Uses the snapshot worktree /tmp/verif-snap (refresh it first: git -C /tmp/verif-snap checkout --detach <HEAD>).
-LET="${*:-A B C D E F G H}"
+LET="${*:-A B C D E F G H I J}"
+# IDS="C03 C14" restricts the run to some properties
 cd /verif
 for d in seeded/C*/; do
   id=$(basename "$d")
+  if [ -n "${IDS:-}" ] && ! echo " $IDS " | grep -q " $id "; then continue; fi
   for L in $LET; do
     p="seeded/$id/$L/patch.diff"; [ -f "$p" ] || continue
     # a change whose original patch no longer applies after a later repair of /repo is kept re-based
